@@ -608,6 +608,10 @@ class _OsProxy:
             env.emit({"k": "Open", "status": type(e).__name__, "op": "EXCL" if flags & os.O_EXCL else ""})
             raise
         env.open_fds.add(fd)
+        if not existed and not (flags & os.O_EXCL):
+            # the flock lock file is persistent and never written: on a real table its mtime is the table's age.
+            # Make every lock file look old, so that any age-based shortcut in the code under test is exercised.
+            os.utime(path, (0, 0))
         n_before = len(env.inos)
         ino = env.ino_id(fd)
         if (not existed) != (len(env.inos) > n_before):
